@@ -240,7 +240,9 @@ enum Slot {
 fn run_ring(dec: Dec, opts: &RunOpts) -> RunOut {
     let mut sim = Sim::new(dec, SimCfg { record: opts.record, ..SimCfg::default() });
     let d = &mut sim.dec;
-    let sq_entries = 1u32 << d.choose(K::Cfg, 4);
+    // the application may ask for any size; the kernel (stub) rounds it up to a power of two
+    let requested = 1 + d.choose(K::Cfg, 8);
+    let sq_entries = requested.next_power_of_two();
     let cq_entries = (sq_entries * 2).max(2) << d.choose(K::Cfg, 2).min(1);
     let single = d.chance(K::Cfg, 1, 2);
     let sqe128 = d.chance(K::Cfg, 1, 4);
@@ -274,7 +276,7 @@ fn run_ring(dec: Dec, opts: &RunOpts) -> RunOut {
             if cqe32 {
                 flags = flags | IoUringParamFlags::IORING_SETUP_CQE32;
             }
-            let mut ring = match rusl::io_uring::setup_io_uring(sq_entries, flags, 0, 0) {
+            let mut ring = match rusl::io_uring::setup_io_uring(requested, flags, 0, 0) {
                 Ok(r) => r,
                 Err(e) => return Some(Violation { sig: "setup|failed-on-stub".into(), detail: format!("{e:?}") }),
             };
@@ -476,7 +478,7 @@ fn run_ring(dec: Dec, opts: &RunOpts) -> RunOut {
     });
     let mut out = RunOut::default();
     out.violation = viol;
-    let mut h = simk::dec::mix(&[u64::from(sq_entries), u64::from(cq_entries), u64::from(start), u64::from(cq_start), u64::from(single) | u64::from(sqe128) << 1 | u64::from(cqe32) << 2]);
+    let mut h = simk::dec::mix(&[u64::from(requested), u64::from(sq_entries), u64::from(cq_entries), u64::from(start), u64::from(cq_start), u64::from(single) | u64::from(sqe128) << 1 | u64::from(cqe32) << 2]);
     for s in &steps_done {
         h = simk::dec::mix(&[h, simk::dec::hash_str(s)]);
     }
@@ -492,7 +494,7 @@ fn run_ring(dec: Dec, opts: &RunOpts) -> RunOut {
     }
     if opts.record {
         out.events = steps_done.clone();
-        out.sample = Some(json!({"sq_entries": sq_entries, "cq_entries": cq_entries, "single_mmap": single, "sqe128": sqe128, "cqe32": cqe32, "sq_start": start, "cq_start": cq_start, "steps": steps_done.len(), "profile": if cfg!(debug_assertions) { "debug (overflow checks on)" } else { "release" }}));
+        out.sample = Some(json!({"requested_entries": requested, "sq_entries": sq_entries, "cq_entries": cq_entries, "single_mmap": single, "sqe128": sqe128, "cqe32": cqe32, "sq_start": start, "cq_start": cq_start, "steps": steps_done.len(), "profile": if cfg!(debug_assertions) { "debug (overflow checks on)" } else { "release" }}));
     }
     out.decisions = std::mem::take(&mut sim.dec.log);
     out
@@ -522,7 +524,7 @@ impl Check for C17 {
         }
     }
     fn rule(&self) -> String {
-        "each case = one seeded run of 10..200 steps on a ring built by the unmodified setup_io_uring over stub memory: SQ sizes 1,2,4,8, CQ sizes 2..32, single- and two-mmap layouts, SQE128/CQE32 on or off, head/tail counters of both rings starting at 0, small values, u32::MAX/2-k or u32::MAX-k; steps by decision: application {get slot + stamp user_data, flush, reap one completion, re-read the completion reference handed out earlier}, kernel {consume 1..n published submissions, post 1..m completions incl. unsolicited ones while there is room}; followed by a quiescence phase. Oracle: per-slot ownership map (no slot handed out before consumed), kernel sees submissions #1,#2,... each once in order and only published ones, every posted completion is returned once in order with the content posted, posted completions are eventually returned, the fields read later through a returned reference still equal what was posted for it; panics are violations; odd workers run a debug build (overflow checks on). non-trivial = a ring index crossed u32::MAX during the run; distinct = hash of configuration and step outcomes".into()
+        "each case = one seeded run of 10..200 steps on a ring built by the unmodified setup_io_uring over stub memory: requested SQ sizes 1..8 (rounded up to 1,2,4,8 by the stub as the kernel does), CQ sizes 2..32, single- and two-mmap layouts, SQE128/CQE32 on or off, head/tail counters of both rings starting at 0, small values, u32::MAX/2-k or u32::MAX-k; steps by decision: application {get slot + stamp user_data, flush, reap one completion, re-read the completion reference handed out earlier}, kernel {consume 1..n published submissions, post 1..m completions incl. unsolicited ones while there is room}; followed by a quiescence phase. Oracle: per-slot ownership map (no slot handed out before consumed), kernel sees submissions #1,#2,... each once in order and only published ones, every posted completion is returned once in order with the content posted, posted completions are eventually returned, the fields read later through a returned reference still equal what was posted for it; panics are violations; odd workers run a debug build (overflow checks on). non-trivial = a ring index crossed u32::MAX during the run; distinct = hash of configuration and step outcomes".into()
     }
     fn assumptions(&self) -> Vec<String> {
         vec![
